@@ -46,7 +46,11 @@ func (fc *funcContext) translateStmt(stmt ast.Stmt, label *types.Label) {
 		panic(bail) // Initiate orderly bailout.
 	}()
 
-	fc.SetPos(stmt.Pos())
+	if pos := stmt.Pos(); pos.IsValid() || !fc.pos.IsValid() {
+		// Statements synthesized by the compiler (no position of their own)
+		// belong to the source statement they were generated for.
+		fc.SetPos(pos)
+	}
 
 	stmt = filter.IncDecStmt(stmt, fc.pkgCtx.Info.Info)
 	stmt = filter.Assign(stmt, fc.pkgCtx.Info.Info, fc.pkgCtx.Info.Pkg)
